@@ -126,6 +126,10 @@ def coq_make(targets=None, timeout=1800):
         subprocess.run(['coq_makefile', '-f', '_CoqProject'] + vfiles + ['-o', 'Makefile'], cwd=COQ, check=True,
                        capture_output=True)
         open(stamp, 'w').write('\n'.join(vfiles))
+        try:
+            os.remove(os.path.join(COQ, '.Makefile.d'))
+        except OSError:
+            pass
     cmd = ['timeout', str(timeout), 'make', '-j16'] + (targets or [])
     p = subprocess.run(cmd, cwd=COQ, capture_output=True, text=True)
     return p.returncode == 0, (p.stdout + p.stderr)
